@@ -599,3 +599,76 @@ func closureOfValue(v ssa.Value) *ssa.Function {
 	}
 	return nil
 }
+
+// LoopVisitedGuard checks the visited-set idiom of a loop that follows references: in every loop of fn containing a
+// reference lookup (selected by isRef), each path from the lookup to a back edge of that loop records a key in a
+// utils.Set, and that key changes from one iteration to the next (it is defined inside the loop or is a header phi):
+// recording a loop-invariant key adds nothing new and an `a extends b, b extends a` chain is followed forever.
+func LoopVisitedGuard(p *Prog, fn *ssa.Function, isRef func(*ssa.Lookup) bool) (bool, string) {
+	n := 0
+	for _, l := range Loops(fn) {
+		var refs []*ssa.Lookup
+		for b := range l.Blocks {
+			for _, in := range b.Instrs {
+				if lk, ok := in.(*ssa.Lookup); ok && isRef(lk) {
+					refs = append(refs, lk)
+				}
+			}
+		}
+		if len(refs) == 0 {
+			continue
+		}
+		varying := func(v ssa.Value) bool {
+			v = ResolveLoad(v)
+			in, ok := v.(ssa.Instruction)
+			return ok && l.Blocks[in.Block()]
+		}
+		isAdd := func(in ssa.Instruction) bool {
+			_, k, ok := setCall(in, "Add")
+			return ok && varying(k)
+		}
+		for _, lk := range refs {
+			n++
+			// walk forward from the lookup inside the loop; reaching the header again without an Add is a failure
+			type pos struct {
+				b *ssa.BasicBlock
+				i int
+			}
+			idx := 0
+			for i, in := range lk.Block().Instrs {
+				if in == ssa.Instruction(lk) {
+					idx = i + 1
+				}
+			}
+			seen := map[*ssa.BasicBlock]bool{}
+			work := []pos{{lk.Block(), idx}}
+			for len(work) > 0 {
+				w := work[len(work)-1]
+				work = work[:len(work)-1]
+				stopped := false
+				for i := w.i; i < len(w.b.Instrs); i++ {
+					if isAdd(w.b.Instrs[i]) {
+						stopped = true
+						break
+					}
+				}
+				if stopped {
+					continue
+				}
+				for _, s := range w.b.Succs {
+					if s == l.Header {
+						return false, fmt.Sprintf("the loop at %s can start another iteration after the lookup at %s without recording a key that changes between iterations in the visited set", p.Pos(l.Header.Instrs[0].Pos()), p.Pos(lk.Pos()))
+					}
+					if l.Blocks[s] && !seen[s] {
+						seen[s] = true
+						work = append(work, pos{s, 0})
+					}
+				}
+			}
+		}
+	}
+	if n == 0 {
+		return false, "no loop containing a reference lookup found"
+	}
+	return true, fmt.Sprintf("%d reference lookup(s) in loops: every way back to the loop header records a per-iteration key in the visited set", n)
+}
